@@ -25,7 +25,7 @@ RULE = ("one run = one manager lifetime (real TCPServer.run + socketserver loop 
         "(arbitrary bytes, invalid UTF-8, hostile JSON shapes, requests of every command with hostile "
         "field values, hostile block / brother / coinbase shapes, a quarter of the later lines repeating "
         "the previous one; sent in fragments / half-closed / reset before the reply / reset before a whole "
-        "line arrived / two at once), each "
+        "line arrived / held open after the reply / two at once), each "
         "followed by a well-formed probe on a new connection; non-trivial = at least one hostile line "
         "was parsed as JSON and dispatched; distinct = tuple (mode, sorted kinds of lines in the history, "
         "client behaviours used)")
@@ -303,7 +303,7 @@ def run_one(ch, cfg):
             kinds.append(kind)
             behaviour = ch.weighted([(6, "plain"), (2, "fragments"), (1, "half-close"),
                                      (1, "reset"), (1, "pair"), (1, "trailing-bytes"),
-                                     (1, "reset-mid-line")], "client.behaviour")
+                                     (1, "reset-mid-line"), (1, "hold-open")], "client.behaviour")
             behaviours.add(behaviour)
             entry = {"line": line[:200].decode("latin-1") + ("...(%d bytes)" % len(line)
                                                             if len(line) > 200 else ""),
@@ -321,7 +321,12 @@ def run_one(ch, cfg):
                              "listening (%s)" % (i, _outcome(w))))
                 return
             for conn in ([c] if how == "sent" else []) + ([other] if other is not None else []):
-                data = conn.drain()
+                if behaviour == "hold-open" and conn is c:
+                    # reads its reply line and then keeps the connection open (a pooled or lazily
+                    # closed socket): nobody else may be kept waiting for that
+                    data = conn.recv_line(600)[0]
+                else:
+                    data = conn.drain()
                 ok, res = check_reply(data, True)
                 entry.setdefault("replies", []).append(data[:160].decode("latin-1"))
                 if not ok:
